@@ -129,9 +129,21 @@ structure Ctx where
   env : TEnv
   implied : Bool
 
-/-- `tagging_environment == Automatic && !members.any(|m| m.tag.is_some())` -/
-def automaticTags (ctx : Ctx) (members : List SrcComp) : Bool :=
+/-- `tagging_environment == Automatic && !options.any(|o| o.tag.is_some())` (CHOICE; and SEQUENCE / SET before fix `377113c`) -/
+def automaticTagsFlat (ctx : Ctx) (members : List SrcComp) : Bool :=
   ctx.env == .Automatic && !members.any (fun c => c.tag.isSome)
+
+/-- a member that is a version group (the lexer's wrapper `ext_group_…` of type SEQUENCE) with a tagged component -/
+def groupTagged (c : SrcComp) : Bool :=
+  c.name.startsWith Lexer.extGroupPrefix &&
+    (match c.ty with
+     | .seq _ cs _ _ => cs.any (fun g => g.tag.isSome)
+     | _ => false)
+
+/-- SEQUENCE / SET since fix `377113c`: `tagging_environment == Automatic && !members.any(|m| m.tag.is_some() ||
+    (m.name.starts_with(PREFIX) && matches!(&m.ty, Sequence(g) if g.members.any(|gm| gm.tag.is_some()))))` -/
+def automaticTags (ctx : Ctx) (members : List SrcComp) : Bool :=
+  ctx.env == .Automatic && !members.any (fun c => c.tag.isSome || groupTagged c)
 
 abbrev Rec := Bool → String → Option Tag → SrcType → List ItemF
 
@@ -149,7 +161,7 @@ def structItem (ctx : Ctx) (firstLevel : Bool) (name : String) (tag : Option Tag
 def choiceItem (ctx : Ctx) (firstLevel : Bool) (name : String) (tag : Option Tag)
     (members : List SrcComp) (ext : Option Nat) : ItemF :=
   { name := name, kind := .choice, isSet := false, nonExhaustive := nonExhaustive ext ctx.implied members.length,
-    automaticTags := automaticTags ctx members,
+    automaticTags := automaticTagsFlat ctx members,
     -- tagged top-level CHOICE: forced explicit unless the module default is EXPLICIT
     tag := tag.map (fun t => if ctx.env != .Explicit then tagFact t .Explicit
                               else tagFact t (envAdd ctx.env (kwEnv t.kw))),
